@@ -100,6 +100,7 @@ class RuleRecord:
     def violation(self, construct, node, message):
         self.obligations += 1
         f = Finding(self.result.prop, self.id, construct, node, message)
+        f.func_node = getattr(construct, "node", None) if isinstance(construct, FuncInfo) else None
         self.result.findings.append(f)
         return f
 
